@@ -125,6 +125,7 @@ func (x *Exec) pass() {
 	x.calls = map[string]int{}
 	x.paramVals = map[string]Val{}
 	x.deferred = nil
+	x.inCrit = false
 	x.psums = nil
 	x.psumUnfolded = nil
 	x.X.decls = nil
